@@ -151,8 +151,13 @@ func VH_C06_BlockRoundTrip() {
 	t.SiafundInputs[0].Parent.StateElement = proofOf(1)
 	t.SiafundInputs[0].SatisfiedPolicy = types.SatisfiedPolicy{Policy: types.PolicyAbove(0)}
 
+	vh.MarkCaller(&b)
+	vh.MarkCaller(&s)
+	vh.TrackWrites(true)
 	s2, au := ApplyBlock(s, b, V1BlockSupplement{}, time.Unix(40600, 0))
 	ru := RevertBlock(s, b, V1BlockSupplement{})
+	vh.TrackWrites(false)
+	vh.Assert(vh.WriteEvents() == 0, "ApplyBlock / RevertBlock wrote to the block, the parent state or package-level memory")
 
 	// same diffs, reversed
 	as, rs := au.SiacoinElementDiffs(), ru.SiacoinElementDiffs()
